@@ -39,6 +39,7 @@ class C14(PropBase):
         "held another message before (F4), the text was seen in another carrier earlier, the strload memo was shrunk to capacity "
         "1/2, a decoded container returned earlier was mutated, or a memo written earlier was read; distinct = distinct "
         "(operation digest, pre-state signature) pairs."
+        ' Under the swept exhaustion fault the first carrier is first offered from every stack depth at which the call cannot complete (Python-literal text over-represented).'
     )
     ASSUMPTIONS = ["T has no bytes-like members", "JSON texts are those produced by json.dumps of wire values plus a fixed pool of look-alikes and malformed texts; "
                    "NaN/Infinity are not JSON"]
